@@ -47,6 +47,8 @@ var c19Funcs = []c19Fn{
 	// ---- entry points that are SAMPLED (or modelled only in part): inventoried so that a new partial operation forces a review
 	{"auth/api/iam/openid4vp.go", "Wrapper", "getClientMetadataFromRequest"},
 	{"auth/api/iam/openid4vp.go", "Wrapper", "getPresentationDefinitionFromRequest"},
+	{"auth/client/iam/client.go", "HTTPClient", "PresentationDefinition"},
+	{"auth/client/iam/client.go", "", "checkNoNullEntries"},
 	{"vcr/revocation/statuslist2021_verifier.go", "StatusList2021", "Verify"},
 	{"vcr/revocation/statuslist2021_verifier.go", "StatusList2021", "statusList"},
 	{"vcr/revocation/statuslist2021_verifier.go", "StatusList2021", "update"},
